@@ -238,7 +238,57 @@ def check(run):
                           gen_problem, clause='generated_model', concrete=False)
         else:
             run.notes.append("generated model: " + gen_problem[:500])
+    check_event_during_init(run)
+
+
+def check_event_during_init(run, only=None):
+    """'the initial value is reduced by the same arithmetic' - also for a Counter that gets its first
+    event while the circuit is still being initialised (an Input created before it sends 'inc'/'dec'
+    from its own initialisation): the Counter is initialised from its (reduced) initdef first, then the
+    event is applied."""
+    import asyncio
+    from . import vloop
+    for name, mod, init, et, want in (('inc_mod7', 7, 12, 'inc', 6), ('dec_mod5', 5, 5, 'dec', 4),
+                                      ('inc_nomod', None, -3, 'inc', -2), ('inc_mod2_5', 2.5, 6, 'inc', 2.0)):
+        if only is not None and name != only:
+            continue
+        obs = dict(output=None, error=None, harness=None)
+
+        async def main(loop, mod=mod, init=init, et=et, obs=obs):
+            edzed.reset_circuit()
+            circuit = edzed.get_circuit()
+            edzed.Input('src', initdef=1, on_output=edzed.Event('cnt', et))
+            cnt = edzed.Counter('cnt', modulo=mod, initdef=init)
+            task = asyncio.create_task(circuit.run_forever())
+            try:
+                await circuit.wait_init()
+            except Exception as err:             # noqa
+                obs['error'] = repr(circuit.error or err)[:200]
+            obs['output'] = cnt.output if cnt.output is not edzed.UNDEF else 'UNDEF'
+            try:
+                await circuit.shutdown()
+            except BaseException:                # noqa
+                pass
+        try:
+            vloop.run_virtual(main, wall_limit_s=10.0)
+        except BaseException as err:             # noqa
+            obs['harness'] = repr(err)[:200]
+        finally:
+            edzed.reset_circuit()
+        run.add_case(dict(event_during_init=name), True)
+        run.count('event_during_init')
+        ok = obs['harness'] is None and obs['error'] is None and obs['output'] == want
+        run.add_obligation(ok)
+        if not ok:
+            run.violation('monitor', dict(case=dict(event_during_init=name), observed=obs),
+                          f"Counter(modulo={mod}, initdef={init}) created after an Input whose initialisation sends "
+                          f"it '{et}': output after wait_init() = {obs['output']!r} (expected {want!r}), error "
+                          f"{obs['error']}; harness: {obs['harness']}", clause='event_during_init:' + name,
+                          concrete=True)
 
 
 def replay(run, path):
+    _, case = common.load_replay_case(path)
+    if isinstance(case, dict) and 'event_during_init' in case:
+        return common.directed_replay(run, path, lambda: check_event_during_init(run, case['event_during_init']))
     return common.std_replay(run, C20(), path)
